@@ -27,6 +27,7 @@ import (
 // Variants
 //
 //	build       library builds the token (struct, SetCheckSum, Marshal): bytes = reference, decode returns the fields, Verify true
+//	build-rrc   Wrap token built with RRC = A in the header: checksum as for RRC 0, field carried and returned
 //	newinit     NewInitiatorWrapToken / NewInitiatorMICToken = reference for flags 0, seq 0, usage 24 / 25
 //	present     the reference token is decoded and verified by the library: fields and Verify true
 //	bitflip     reference token with bit A flipped (A/8 = octet, A%8 = bit)
@@ -304,6 +305,42 @@ func eval(c Case) (v evid.Verdict, trivial bool, outcome string) {
 		}
 
 		switch c.Variant {
+		case "build-rrc":
+			// a Wrap token whose header announces a rotation count (A): RFC 4121 4.2.4 computes the checksum over the
+			// header with EC and RRC zeroed, so the checksum is that of RRC = 0; the field itself is carried in octets 6..7
+			if c.Kind != gsstok.KindWrap {
+				return evid.Fail("harness", "build-rrc is a Wrap variant")
+			}
+			rrc := uint16(c.A)
+			l := newLib(c.Kind, c.Flags, c.Seq, clone(payload), uint16(ckLen))
+			l.w.RRC = rrc
+			if err := l.setCksum(ek, c.Usage); err != nil {
+				return evid.Fail("build:wrap:setchecksum-error", "SetCheckSum(etype %d, usage %d, RRC %d): %v", c.EType, c.Usage, rrc, err)
+			}
+			if !bytes.Equal(l.w.CheckSum, refCk) {
+				return evid.Fail("value:wrap:rrc-in-checksum", "Wrap token with RRC %d (etype %d usage %d flags %#x seq %d): SetCheckSum gives %x, RFC 4121 4.2.4 (header with EC and RRC zeroed) gives %x",
+					rrc, c.EType, c.Usage, c.Flags, c.Seq, l.w.CheckSum, refCk)
+			}
+			got, err := l.marshal()
+			if err != nil {
+				return evid.Fail("build:wrap:marshal-error", "Marshal: %v", err)
+			}
+			want := clone(refTok)
+			want[6], want[7] = byte(rrc>>8), byte(rrc)
+			if !bytes.Equal(got, want) {
+				return evid.Fail("marshal:wrap:rrc", "Wrap token with RRC %d marshals to\n%x\nexpected the RRC = 0 token with octets 6..7 set:\n%x", rrc, got, want)
+			}
+			l2 := &lib{kind: c.Kind}
+			if err := l2.unmarshal(clone(got), fromAcc); err != nil {
+				return evid.Fail("roundtrip:wrap:unmarshal-error", "Unmarshal(Marshal(t)) with RRC %d: %v", rrc, err)
+			}
+			if l2.w.RRC != rrc || l2.w.Flags != c.Flags || l2.w.SndSeqNum != c.Seq || !bytes.Equal(l2.w.Payload, payload) || !bytes.Equal(l2.w.CheckSum, refCk) {
+				return evid.Fail("roundtrip:wrap:rrc", "Unmarshal(Marshal(t)) with RRC %d returns other fields: %+v", rrc, l2.w)
+			}
+			if ok, err := l2.verify(ek, c.Usage); !ok {
+				return evid.Fail("roundtrip:wrap:verify-false", "Verify after Unmarshal(Marshal(t)) with RRC %d = false (%v): the rotation count is not part of the checksum", rrc, err)
+			}
+			return evid.Pass()
 		case "build":
 			l := newLib(c.Kind, c.Flags, c.Seq, clone(payload), uint16(ckLen))
 			if err := l.setCksum(ek, c.Usage); err != nil {
@@ -669,9 +706,12 @@ func TestProp(t *testing.T) {
 		n := kgen.BoundaryLen(t, 300)
 		payload := kgen.Bytes(t, "payload", n)
 		c.Payload = hex.EncodeToString(payload)
-		c.Variant = rapid.SampledFrom(append([]string{"build", "build", "newinit", "present"}, tamperVariants...)).Draw(t, "variant")
+		c.Variant = rapid.SampledFrom(append([]string{"build", "build", "build-rrc", "newinit", "present"}, tamperVariants...)).Draw(t, "variant")
 		tl := tokLen(c.Kind, c.EType, n)
 		switch c.Variant {
+		case "build-rrc":
+			c.Kind = gsstok.KindWrap
+			c.A = rapid.SampledFrom([]int{1, 12, 16, 28, 255, 256, 65535}).Draw(t, "rrc")
 		case "newinit":
 			c.Flags, c.Seq, c.Usage = 0, 0, gsstok.RFCUsage(c.Kind, false)
 		case "bitflip":
@@ -775,7 +815,7 @@ func TestProp(t *testing.T) {
 	}
 
 	// E1: the complete grid kind x etype x flags x usage x sequence-number class, built by the library and presented to it.
-	r.Rule("enum E1: complete grid kind x etype x flags 0..7 x usage 22..25 x sequence number {0,1,2^32-1,2^32,2^64-1,one seeded random}: build and present (payload length seeded in 1..300)")
+	r.Rule("enum E1: complete grid kind x etype x flags 0..7 x usage 22..25 x sequence number {0,1,2^32-1,2^32,2^64-1,one seeded random}: build and present (payload length seeded in 1..300); Wrap tokens also built with a non-zero rotation count in the header (1, 12, 28, 65535), which RFC 4121 4.2.4 keeps out of the checksum")
 	type g1 struct {
 		kind  string
 		et    int32
@@ -809,6 +849,10 @@ func TestProp(t *testing.T) {
 		judge("enum", c, nil)
 		c.Variant = "present"
 		judge("enum", c, nil)
+		if g.kind == gsstok.KindWrap {
+			c.Variant, c.A = "build-rrc", []int{1, 12, 28, 65535}[i%4]
+			judge("enum", c, nil)
+		}
 	})
 	r.Exhaustive("build/present grid: kind x etype x flags 0..7 x usage 22..25 x sequence number class")
 
